@@ -85,8 +85,6 @@ C14_LOOP_EXCEPTIONS = {}
 
 _SANE = "sane-model premise (closed model, positive areas/heights/thicknesses/conductivities, non-negative loads): "
 C14_DIV_EXCEPTIONS = {
-    'c14.div|bemodel::<energy::props::EnergyProps as std::convert::From<&types::model::Model>>::from|divisor=utils::fround2(sum(map(BTreeMap::values(..),{closure})))':
-        _SANE + "the net volume of habitable spaces inside the envelope is positive when a habitable space exists; without one the building has no ventilation rate to report",
     'c14.div|bemodel::energy::radiation::<impl types::model::Model>::compute_fshobst|divisor=len(map[].1.fshdir)':
         "an ObstData entry exists only after at least one push (entry().or_default() is followed by three pushes); the July tables have >= 1 row per zone [C20-D1]",
     'c14.div|bemodel::energy::radiation::<impl types::model::Model>::compute_fshobst|divisor=Add(index(map[].1.dir,Range{..}[]),index(map[].1.dif,Range{..}[]))':
@@ -141,8 +139,6 @@ C14_DIV_EXCEPTIONS = {
         _SANE + "R_f >= 0.20 > 0 and R_u >= 0",
     'c14.div|bemodel::energy::transmittance::<impl types::opaques::Wall>::u_value_interior_cond_uncond|divisor=R_f':
         "argument of a debug! message only; R_f >= 0.20",
-    'c14.div|bemodel::energy::<impl types::model::Model>::global_ventilation_rate|divisor=utils::fround2(sum(*':     # however the sum over spaces is written
-        _SANE + "the net volume of habitable spaces inside the envelope is positive when a habitable space exists",
     'c14.div|climate::solar::G_sol_b|divisor=solar::sind(a)':
         "a = max(altsol, 0.01) degrees, so sin(a) >= sin(0.01 deg) > 0 for the sun above the horizon",
     'c14.div|climate::solar::I_circum_eq|divisor=b':
